@@ -239,6 +239,14 @@ class Reach:
                     if not ds and isinstance(e, ast.Attribute):
                         return ast.Attribute(value=rec(e.value), attr=e.attr, ctx=ast.Load())
                     if not ds:
+                        mv = getattr(self.fi.module, "assigns", {}).get(e.id)
+                        if mv is not None and e.id not in self.params:
+                            try:
+                                cv = q.fold(mv, {})
+                                if isinstance(cv, (int, float, bytes, str)) and not isinstance(cv, bool):
+                                    return ast.Constant(value=cv)  # module-level scalar constant
+                            except q.NotFoldable:
+                                pass
                         return ast.Name(id=e.id, ctx=ast.Load())  # global / builtin / closure
                     if len(ds) > 1:
                         return ast.Name(id=d + "@phi", ctx=ast.Load())
@@ -454,7 +462,7 @@ CONVERSIONS: Dict[str, Tuple[str, ...]] = {
 SAFE_FUNCS = {
     "len", "isinstance", "str", "bytes", "bool", "repr", "hasattr", "utf8", "to_unicode", "native_str", "to_basestring",
     "hmac.compare_digest", "hmac.new", "time.time", "os.urandom", "binascii.b2a_hex", "binascii.hexlify", "base64.b64encode",
-    "min", "max", "abs", "range", "tuple", "list",
+    "min", "max", "abs", "range", "tuple", "list", "contextlib.suppress", "suppress", "frozenset", "set", "dict",
 }
 SAFE_ATTRS = {
     "split", "rsplit", "partition", "rpartition", "startswith", "endswith", "strip", "lstrip", "rstrip", "lower", "upper",
@@ -478,13 +486,30 @@ def handler_reraises(h: ast.ExceptHandler) -> bool:
 
 def local_handler(pm, node: ast.AST, exc: str) -> Optional[ast.ExceptHandler]:
     """Innermost enclosing handler of the function that catches ``exc`` and does
-    not re-raise it with a bare ``raise``."""
-    for _try, handlers in q.enclosing_try_handlers(pm, node):
-        for h in handlers:
-            if q.exc_is_caught(exc, q.handler_names(h)):
-                if handler_reraises(h):
-                    break  # propagates outward from this try
-                return h
+    not re-raise it with a bare ``raise`` - a ``try`` handler or ``with contextlib.suppress(...)``."""
+    child = node
+    for a in q.ancestors(pm, node):
+        if isinstance(a, q.ScopeNode):
+            break
+        if isinstance(a, ast.Try) and any(child is s_ for s_ in a.body):
+            stop = False
+            for h in a.handlers:
+                if q.exc_is_caught(exc, q.handler_names(h)):
+                    if handler_reraises(h):
+                        stop = True
+                        break  # propagates outward from this try
+                    return h
+            if stop:
+                pass
+        elif isinstance(a, (ast.With, ast.AsyncWith)) and any(child is s_ for s_ in a.body):
+            for it in a.items:
+                c = it.context_expr
+                if isinstance(c, ast.Call) and q.dotted(c.func) in ("contextlib.suppress", "suppress") and c.args:
+                    names = [q.dotted(x) or q.unparse(x) for x in c.args]
+                    if q.exc_is_caught(exc, names):
+                        h = ast.ExceptHandler(type=ast.Tuple(elts=list(c.args), ctx=ast.Load()) if len(c.args) > 1 else c.args[0], name=None, body=[ast.Pass()])
+                        return ast.copy_location(h, a)
+        child = a
     return None
 
 
@@ -631,6 +656,33 @@ class Escapes:
                         self.notes.append("%s: %s on untainted operand not considered" % (fi.qualname, q.unparse(x)))
                     continue
                 if nm in SAFE_FUNCS or (isinstance(x.func, ast.Attribute) and attr in SAFE_ATTRS):
+                    continue
+                if nm == "next" and len(x.args) == 2:
+                    continue  # next(it, default) does not raise StopIteration; what the iterator's body raises is accounted for at its call
+                if nm == "next" and len(x.args) == 1:
+                    add(x, "StopIteration", "call", "next")
+                    continue
+                if nm in ("filter", "map", "iter", "zip", "enumerate", "reversed", "sorted"):
+                    continue
+                # a callee taken from a dispatch table of analysed functions: {k: f, ...}.get(key) / TABLE[key]
+                tbl_funcs = None
+                if isinstance(x.func, ast.Name):
+                    ns_ = rd.cfg_nodes_of(x)
+                    d_ = rd.unique(ns_[0], x.func.id) if ns_ else None
+                    tv = d_.value if d_ is not None and d_.kind == "assign" else None
+                    tb = None
+                    if isinstance(tv, ast.Call) and isinstance(tv.func, ast.Attribute) and tv.func.attr == "get" and tv.args:
+                        tb = tv.func.value
+                    elif isinstance(tv, ast.Subscript):
+                        tb = tv.value
+                    if isinstance(tb, ast.Name):
+                        tb = self.repo.module(self.relpath).assigns.get(tb.id)
+                    if isinstance(tb, ast.Dict) and tb.values and all(isinstance(v_, ast.Name) and v_.id in self.analysed for v_ in tb.values):
+                        tbl_funcs = [self.repo.func(self.relpath, v_.id) for v_ in tb.values]
+                if tbl_funcs is not None:
+                    for cal in tbl_funcs:
+                        for exc in sorted(self.escaping(cal)):
+                            add(x, exc, "call", cal.qualname)
                     continue
                 if isinstance(x.func, ast.Name) and x.func.id in fi.params() and x.func.id not in src:
                     self.notes.append("%s: call of caller-supplied callable %s() assumed not to raise" % (fi.qualname, x.func.id))
